@@ -282,7 +282,23 @@ def c05(tier, seed, replay=None):
 
 
 def c06(tier, seed, replay=None):
-    return run_rules("C06", tier, seed, FAMILIES, 800, RULE, ASSUME)
+    t0 = time.time()
+    v1, cov = run_rules("C06", tier, seed, FAMILIES, 800, RULE, ASSUME, write=False)
+    # engine half of the property (AGM invariant NoLeak; primal of a nested / failing / retried differentiation is the plain value):
+    # programs of the fault and nest families replayed on the real code; a tracer handed back or a wrong value is a violation
+    from checks import agm
+    v2, cov2 = agm.run_agm("C06", tier, seed, [("fault", 2, None), ("nest", 2, None), ("ctrl", 2, None)], [("fault", 2, agm.MUT_TOP)],
+                           "programs whose value is handed back to the top-level caller after nested, failing and retried differentiations",
+                           agm.ASSUME, write=False)
+    for k in ("states", "transitions", "traces_validated_against_impl", "evaluations", "distinct_nontrivial"):
+        cov[k] += cov2[k]
+    cov["engine_programs"] = {k: cov2[k] for k in ("families", "model_mutants_rejected", "traces_accepted", "rule")}
+    v1.violations += v2.violations
+    for k, n in v2.known_hits.items():
+        v1.known_hits[k] = v1.known_hits.get(k, 0) + n
+    rc = v1.finish()
+    vlib.write_evidence("C06", tier, seed, "model_checking", cov, ASSUME + agm.ASSUME, time.time() - t0, len(v1.violations))
+    return rc
 
 
 SECOND_FAMILIES = {k: v for k, v in FAMILIES.items() if k not in ("kink",)}
